@@ -66,8 +66,16 @@ func (p *Pipe) sharedBody() (lets, expr string) {
 		return "let r=numbers(3).multiUse({p:l->l.sum()+s.size(), q:l->l.size()+s.reverse().first()+s[0], t:l->l.first()+s.eval().last()}); ", "[r.p,r.q,r.t]"
 	case 8:
 		return "", "numbers(24).map(i->cost(" + strconv.Itoa(sharedCostID) + ",i)+(if i<14 then i else s.size()*1000+s[i%2]+i))"
-	default:
+	case 9:
 		return "", "numbers(5).map(i->s.size()+i).merge(numbers(5).map(i->s[1]+s.reverse().last()+i), (p,q)->p<q)"
+	// the same with the fault caught inside the closures: a shared list that fails to materialise
+	// has to fail for every goroutine that asks, also for one that waited for another's attempt
+	case 10:
+		return "", "numbers(24).map(i->cost(" + strconv.Itoa(sharedCostID) + ",i)+(try s.size()*10+s[0] catch 0-1-i))"
+	case 11:
+		return "let r=numbers(3).multiUse({p:l->l.sum()+(try s.size() catch 0-5), q:l->l.size()+(try s.reverse().first() catch 0-7), t:l->l.first()+(try s.eval().last() catch 0-9)}); ", "[r.p,r.q,r.t]"
+	default:
+		return "", "numbers(5).map(i->(try s.size() catch 0-1)*100+i).merge(numbers(5).map(i->(try s[1]+s.order(x->x).last() catch 0-2)*100+i+1), (p,q)->p<q)"
 	}
 }
 
@@ -243,6 +251,14 @@ func renderTerm(prev string, t Stage, s int, p *Pipe) (string, bool) {
 	case "indexWhere":
 		return prev + ".indexWhere(x->" + w("x") + ">=" + k + ")", true
 	case "contains":
+		switch t.N % 5 {
+		case 1: // a list of items to look for
+			return "([" + k + "] ~ " + prev + ")", true
+		case 3: // nothing to look for: decided by the first look
+			return "([] ~ " + prev + ")", true
+		case 4: // the same, known only at run time
+			return "(numbers(0).map(y->y) ~ " + prev + ")", true
+		}
 		return "(" + k + " ~ " + prev + ")", true
 	case "topsize":
 		return prev + ".top(" + strconv.Itoa(t.N) + ").size()", true
